@@ -5,6 +5,7 @@ import (
 	"encoding/hex"
 	"encoding/json"
 	"fmt"
+	dtpb "github.com/google/fhir/go/proto/google/fhir/proto/r4/core/datatypes_go_proto"
 	"github.com/verily-src/fhirpath-go/fhirpath/verifh/ftab"
 	"google.golang.org/protobuf/proto"
 	"google.golang.org/protobuf/reflect/protoreflect"
@@ -382,6 +383,55 @@ func init() {
 						r.Sample(core.W{"history": hist})
 					}
 				}},
+				{Name: "inputs-edited-between-evaluations", N: len(c04EditPrograms), Note: fmt.Sprintf("%d programs x 4 inputs x 7 kinds of in-place edit by the owner of the resource (decimal texts, integers, strings, codes, booleans, dates/times, removal of the last item of every list): evaluate, edit the very same objects, evaluate again on a shared and on a fresh compiled expression - the result is the one a fresh copy of the edited resource gives", len(c04EditPrograms)), Run: func(i int, r *core.Rec) {
+					src := c04EditPrograms[i]
+					shared, err := fhirpath.Compile(src)
+					if err != nil {
+						r.Fail("edited-input|program-does-not-compile", core.W{"src": src, "err": err.Error()})
+						return
+					}
+					show := func(e *fhirpath.Expression, in []fhir.Resource) string {
+						var out string
+						if pi := core.Try(func() {
+							c, err := e.Evaluate(in, mkOpts("v=1", newCol())...)
+							out = lib.ShowColl(c)
+							if err != nil {
+								out = "ERROR"
+							}
+						}); pi != nil {
+							out = "PANIC " + pi.Key()
+						}
+						r.Eval()
+						return out
+					}
+					for _, rn := range []string{"Patient", "Observation", "Bundle", "PatientWithContained"} {
+						for k, ed := range c04Edits {
+							in := resources[rn]()
+							first := show(shared, in)
+							n := 0
+							for _, res := range in {
+								n += ed.apply(res.ProtoReflect())
+							}
+							if n == 0 {
+								continue
+							}
+							again := show(shared, in)
+							fe, _ := fhirpath.Compile(src)
+							againFresh := show(fe, in)
+							var cl []fhir.Resource
+							for _, res := range in {
+								cl = append(cl, proto.Clone(res).(fhir.Resource))
+							}
+							fe2, _ := fhirpath.Compile(src)
+							want := show(fe2, cl)
+							r.State(fmt.Sprintf("edited-input|%s|%s", rn, ed.name))
+							r.Nontrivial(src, rn, fmt.Sprint(k), first, want)
+							if again != want || againFresh != want {
+								r.Fail("edited-input|result-is-not-that-of-the-resource-as-it-is-now|"+ed.name, core.W{"src": src, "resource": rn, "edit": ed.name, "elements_edited": n, "before_the_edit": first, "after_the_edit": again, "after_the_edit_fresh_expression": againFresh, "fresh_copy_of_the_edited_resource": want})
+							}
+						}
+					}
+				}},
 				{Name: "process-histories", N: len(C04RotAlphabet()), Note: fmt.Sprintf("every rotation of the %d-element alphabet (146 per-type type-test batteries, white-space variants, repeated regex calls, same text on other inputs), each in one fresh process; oracle = outcome of the element as first call of a fresh process", len(C04RotAlphabet())), Run: func(i int, r *core.Rec) {
 					al := C04RotAlphabet()
 					rot := c04RotSpawn(i, len(al))
@@ -533,6 +583,146 @@ func init() {
 var c04Isolated []string
 
 // outcomes of every call in the empty history, recorded once per process before any history runs
+// programs of the edited-inputs sub-space: whatever reads values out of the resource
+var c04EditPrograms = []string{
+	"Patient.name.where(use = 'official').given", "Patient.name.given.distinct().count()", "Patient.name.given.isDistinct()", "Patient.name.given.exclude(Patient.name.given.first()).count()",
+	"Patient.name.given.intersect(Patient.name.given.tail()).count()", "Patient.name.given.first() = Patient.name.given.last()",
+	"Patient.birthDate", "Patient.birthDate < @2000-01-01", "Patient.birthDate.toString()", "Patient.active", "Patient.active.not()", "Patient.gender", "Patient.gender = 'female'", "Patient.telecom.rank", "Patient.telecom.rank.first() + 1",
+	"Patient.telecom.where(rank > 1).value", "Patient.multipleBirth", "Patient.deceased", "Patient.contained.id", "Patient.contained.code.coding.code", "Patient.contained.descendants().count()", "Patient.descendants().count()",
+	"Observation.value", "Observation.value.value", "Observation.value.value * 2", "Observation.value > 1 'mg'", "Observation.value.toString()", "Observation.component.value.distinct().count()", "Observation.component.value.isDistinct()",
+	"Observation.component.value.exclude(Observation.component.value.first()).count()", "Observation.effective", "Observation.effective.toString()", "Observation.issued", "Observation.issued > @2020-01-15T10:30:15Z", "Observation.status",
+	"Observation.code.coding.code", "Observation.component.count()", "Observation.referenceRange.low.value", "Bundle.entry.resource.name.select(given.first() & ' ' & family)", "Bundle.entry.resource.id", "Bundle.entry.count()",
+	"Bundle.entry.fullUrl", "Bundle.entry.resource.where($this is Patient).count()", "%context.id", "children().count()", "iif(%context.id.exists(), %context.id, 'none')", "Patient.name.all(given.count() > 0)", "Patient.name.select(given.count())",
+	"Patient.name.family.upper()", "Patient.name.family.length()", "Patient.name.given.count()", "Patient.text.`div`", "Patient.meta.versionId", "Patient.meta.lastUpdated",
+}
+
+type c04Edit struct {
+	name  string
+	apply func(m protoreflect.Message) int
+}
+
+// c04EditWalk visits every populated message below m (not through packed Any values)
+func c04EditWalk(m protoreflect.Message, f func(x protoreflect.Message) int) int {
+	n := f(m)
+	m.Range(func(fd protoreflect.FieldDescriptor, v protoreflect.Value) bool {
+		if fd.Message() == nil || fd.IsMap() {
+			return true
+		}
+		if fd.IsList() {
+			l := v.List()
+			for i := 0; i < l.Len(); i++ {
+				n += c04EditWalk(l.Get(i).Message(), f)
+			}
+		} else {
+			n += c04EditWalk(v.Message(), f)
+		}
+		return true
+	})
+	return n
+}
+
+var c04Edits = []c04Edit{
+	{"decimal-texts", func(m protoreflect.Message) int {
+		return c04EditWalk(m, func(x protoreflect.Message) int {
+			if d, ok := x.Interface().(*dtpb.Decimal); ok && d.Value != "" {
+				d.Value = "1"
+				return 1
+			}
+			return 0
+		})
+	}},
+	{"integers", func(m protoreflect.Message) int {
+		return c04EditWalk(m, func(x protoreflect.Message) int {
+			switch d := x.Interface().(type) {
+			case *dtpb.Integer:
+				d.Value += 5
+				return 1
+			case *dtpb.PositiveInt:
+				d.Value += 5
+				return 1
+			case *dtpb.UnsignedInt:
+				d.Value += 5
+				return 1
+			}
+			return 0
+		})
+	}},
+	{"strings", func(m protoreflect.Message) int {
+		return c04EditWalk(m, func(x protoreflect.Message) int {
+			switch d := x.Interface().(type) {
+			case *dtpb.String:
+				d.Value = "Ann"
+				return 1
+			case *dtpb.Id:
+				d.Value = "edited"
+				return 1
+			}
+			return 0
+		})
+	}},
+	{"codes", func(m protoreflect.Message) int {
+		return c04EditWalk(m, func(x protoreflect.Message) int {
+			switch d := x.Interface().(type) {
+			case *dtpb.Code:
+				d.Value = "edited"
+				return 1
+			}
+			if vf := x.Descriptor().Fields().ByName("value"); vf != nil && vf.Enum() != nil && strings.HasSuffix(string(x.Descriptor().Name()), "Code") {
+				vals := vf.Enum().Values()
+				cur := x.Get(vf).Enum()
+				next := vals.Get((int(vals.ByNumber(cur).Index()) + 1) % vals.Len()).Number()
+				if next == 0 && vals.Len() > 1 {
+					next = vals.Get(1).Number()
+				}
+				x.Set(vf, protoreflect.ValueOfEnum(next))
+				return 1
+			}
+			return 0
+		})
+	}},
+	{"booleans", func(m protoreflect.Message) int {
+		return c04EditWalk(m, func(x protoreflect.Message) int {
+			if d, ok := x.Interface().(*dtpb.Boolean); ok {
+				d.Value = !d.Value
+				return 1
+			}
+			return 0
+		})
+	}},
+	{"dates-and-times", func(m protoreflect.Message) int {
+		return c04EditWalk(m, func(x protoreflect.Message) int {
+			switch d := x.Interface().(type) {
+			case *dtpb.Date:
+				d.ValueUs -= 40 * 366 * 86400 * 1000000
+				return 1
+			case *dtpb.DateTime:
+				d.ValueUs += 400 * 86400 * 1000000
+				return 1
+			case *dtpb.Instant:
+				d.ValueUs += 400 * 86400 * 1000000
+				return 1
+			case *dtpb.Time:
+				d.ValueUs = (d.ValueUs + 3600*1000000) % (86400 * 1000000)
+				return 1
+			}
+			return 0
+		})
+	}},
+	{"last-list-items-removed", func(m protoreflect.Message) int {
+		return c04EditWalk(m, func(x protoreflect.Message) int {
+			n := 0
+			x.Range(func(fd protoreflect.FieldDescriptor, v protoreflect.Value) bool {
+				if fd.IsList() && fd.Message() != nil && v.List().Len() > 1 {
+					v.List().Truncate(v.List().Len() - 1)
+					n++
+				}
+				return true
+			})
+			return n
+		})
+	}},
+}
+
 func c04IsolatedOutcomes() []string {
 	if c04Isolated == nil {
 		for _, c := range c04Calls() {
